@@ -350,7 +350,98 @@ def meshRun : MeshSt → List MeshOp → List Out
   | _, [] => []
   | s, op :: ops => (meshStep s op).1 :: meshRun (meshStep s op).2 ops
 
+/-! ### projection labels on the 12 edges of one operation: every path that can add a label
+
+Slots: bottom face edge i ↦ i, top face edge i ↦ 4 + i, side edge i ↦ 8 + i (i = 0…3).  A slot holds the label
+list of its `Project` edge, `[]` for a `Line`.  All paths end in `Project(label)` (fresh edge) or
+`Project.add_label` (existing one), which **mutates first and checks afterwards**: after a rejected `add_label`
+the edge keeps the merged labels.  The model reproduces that. -/
+
+abbrev PState := List (List Nat)
+
+def emptyP : PState := List.replicate 12 []
+
+/-- one edge receives the labels `new`: `Project(new)` on a line, `add_label(new)` on a projected edge -/
+def slotUpdate (stored new : List Nat) : Out × List Nat :=
+  if stored.isEmpty then
+    if 0 < new.length ∧ new.length < 3 then (.accept, new) else (.reject "EdgeCreationError", stored)
+  else
+    let m := mergeLabels stored new
+    if 0 < m.length ∧ m.length < 3 then (.accept, m) else (.reject "EdgeCreationError", m)
+
+def applySlot (st : PState) (s : Nat) (new : List Nat) : Out × PState :=
+  ((slotUpdate (st.getD s []) new).1, st.set s (slotUpdate (st.getD s []) new).2)
+
+/-- several edges in the order of the python statements; the first exception ends the call (earlier edges keep
+    their new labels) -/
+def seqSlots : List Nat → List Nat → PState → Out × PState
+  | [], _, st => (.accept, st)
+  | s :: ss, new, st =>
+      match (applySlot st s new).1 with
+      | .accept => seqSlots ss new (applySlot st s new).2
+      | .reject c => (.reject c, (applySlot st s new).2)
+
+/-- storage slot of `tools.edge_map[c1][c2]` -/
+def edgeSlot (c1 c2 : Nat) : Option Nat :=
+  (CBV.Gen.edgeLoc.find? (fun e => e.1 == c1 && e.2.1 == c2)).map (fun e =>
+    if e.2.2.1 == "bottom" then e.2.2.2 else if e.2.2.1 == "top" then 4 + e.2.2.2 else 8 + e.2.2.2)
+
+inductive ProjOp where
+  /-- `Operation.project_edge(c1, c2, labels)`; also `Project.add_label` called on the stored edge object -/
+  | pedge (c1 c2 : Int) (new : List Nat)
+  /-- `Operation.project_side(side, label, edges)` -/
+  | pside (side : String) (label : Nat) (edges : Bool)
+  /-- `Face.project_edge(corner, labels)` on the bottom / top face of the operation -/
+  | fpedge (top : Bool) (corner : Int) (new : List Nat)
+  /-- `Face.project(label, edges)` on the bottom / top face -/
+  | fproj (top : Bool) (label : Nat) (edges : Bool)
+  deriving Repr
+
+def faceSlots (top : Bool) : List Nat := if top then [4, 5, 6, 7] else [0, 1, 2, 3]
+
+/-- the slots a lateral `project_side(…, edges=True)` writes, in statement order: `project_edge(i1, i2)`,
+    `project_edge(i1+4, i2+4)`, `side_edges[i1]`, `side_edges[i2]`, `top_face.project_edge(i1)`,
+    `bottom_face.project_edge(i1)` -/
+def sideSlots (i1 : Nat) : Option (List Nat) := do
+  let i2 := (i1 + 1) % 4
+  let a ← edgeSlot i1 i2
+  let b ← edgeSlot (i1 + 4) (i2 + 4)
+  some [a, b, 8 + i1, 8 + i2, 4 + i1, i1]
+
+def projStep (st : PState) : ProjOp → Out × PState
+  | .pedge c1 c2 new =>
+      match run 0 (.opProjectEdge c1 c2) with
+      | .reject c => (.reject c, st)
+      | .accept =>
+          match edgeSlot c1.toNat c2.toNat with
+          | some s => applySlot st s new
+          | none => (.reject "*", st)
+  | .pside side label edges =>
+      if side == "bottom" then (if edges then seqSlots (faceSlots false) [label] st else (.accept, st))
+      else if side == "top" then (if edges then seqSlots (faceSlots true) [label] st else (.accept, st))
+      else
+        let i := CBV.Gen.sidesMap.idxOf side
+        if i < CBV.Gen.sidesMap.length then
+          if edges then
+            match sideSlots i with
+            | some slots => seqSlots slots [label] st
+            | none => (.reject "*", st)
+          else (.accept, st)
+        else (.reject "RuntimeError", st)
+  | .fpedge top corner new =>
+      if faceCornerBad corner then (.reject "FaceCreationError", st)
+      else applySlot st ((if top then 4 else 0) + corner.toNat) new
+  | .fproj top label edges => if edges then seqSlots (faceSlots top) [label] st else (.accept, st)
+
+/-- outcome and state after every call of a history -/
+def projRun : PState → List ProjOp → List (Out × PState)
+  | _, [] => []
+  | st, op :: ops => projStep st op :: projRun (projStep st op).2 ops
+
 /-! ### specification-side definitions used by the theorems about histories -/
+
+/-- all edges of the operation carry at most two labels -/
+def Bounded (st : PState) : Prop := ∀ ls ∈ st, ls.length ≤ 2
 
 /-- the clamped vertices after a history of calls -/
 def gridState (tol : Rat) (pts : List V3) : List GridOp → List Nat → List Nat
@@ -381,6 +472,8 @@ def meshFold : MeshSt → List MeshOp → MeshSt
 `c20.call <name> <rationals [a,b,…]> <strings [s,…]>` → `accept|reject:<Class> pre|nopre`
 `c20.grid <points p;p;…> <ops clamp:p | link:p:p ;…>`  → outcomes joined by `,`
 `c20.mesh <ops add;assemble;…>`                         → outcomes joined by `,`
+`c20.proj <ops pedge:c1:c2:[l,…] | pside:side:l:0|1 | fpedge:0|1:corner:[l,…] | fproj:0|1:l:0|1 ;…>`
+                                                        → per call `outcome@slot0|…|slot11` (labels joined by `.`), joined by `;`
 -/
 
 def tolGen : Rat := mkRat CBV.Gen.c20Tol.1 CBV.Gen.c20Tol.2
@@ -475,11 +568,30 @@ def handleMesh (args : List String) : Option String :=
       some (showOuts (meshRun {} ops))
   | _ => none
 
+def parseProjOp? (s : String) : Option ProjOp :=
+  match s.splitOn ":" with
+  | ["pedge", a, b, ls] => do some (.pedge (← a.toInt?) (← b.toInt?) (← parseNatList? ls))
+  | ["pside", side, l, e] => do some (.pside side (← l.toNat?) (e == "1"))
+  | ["fpedge", t, c, ls] => do some (.fpedge (t == "1") (← c.toInt?) (← parseNatList? ls))
+  | ["fproj", t, l, e] => do some (.fproj (t == "1") (← l.toNat?) (e == "1"))
+  | _ => none
+
+def showPState (st : PState) : String :=
+  "|".intercalate (st.map (fun ls => ".".intercalate (ls.map toString)))
+
+def handleProj (args : List String) : Option String :=
+  match args with
+  | [ops] => do
+      let ops ← (ops.splitOn ";").mapM parseProjOp?
+      some (";".intercalate ((projRun emptyP ops).map (fun r => r.1.toStr ++ "@" ++ showPState r.2)))
+  | _ => none
+
 def handle (op : String) (args : List String) : Option String :=
   match op with
   | "c20.call" => handleCall args
   | "c20.grid" => handleGrid args
   | "c20.mesh" => handleMesh args
+  | "c20.proj" => handleProj args
   | _ => none
 
 end CBV.C20
